@@ -18,79 +18,121 @@ import (
 	"github.com/zeromicro/go-zero/internal/verifhook"
 )
 
+// verifFlightBehaviour is one TLC-generated schedule: either the bare list of moves (the component
+// is fixed by the test function) or {mode, ops} (configs with Mode = "all").
+type verifFlightBehaviour struct {
+	Mode string          `json:"mode"`
+	Ops  []verifFlightOp `json:"ops"`
+}
+
 func verifFlightReplay(t *testing.T, mode string) {
 	em := verifOpen(t)
 	defer em.Close()
 	for h, raw := range verifInput(t) {
-		var ops []verifFlightOp
-		if err := json.Unmarshal(raw, &ops); err != nil {
+		b := verifFlightBehaviour{Mode: mode}
+		if len(raw) > 0 && raw[0] == '{' {
+			if err := json.Unmarshal(raw, &b); err != nil {
+				t.Fatal(err)
+			}
+		} else if err := json.Unmarshal(raw, &b.Ops); err != nil {
 			t.Fatal(err)
 		}
-		s := &verifFlightSched{t: t, em: em, strict: true}
-		var rm *ResourceManager
-		switch mode {
-		case "sf":
-			g := NewSingleFlight()
-			s.invoke = func(c *verifFlightCall, fn func() (any, error)) (int, int, int) {
-				if (c.id+h)%3 == 0 {
-					v, err := g.Do(verifFlightKey(h, c.key), fn)
-					return verifFlightVal(v), verifFlightErrCode(err), 2
-				}
-				v, fresh, err := g.DoEx(verifFlightKey(h, c.key), fn)
-				f := 0
-				if fresh {
-					f = 1
-				}
-				return verifFlightVal(v), verifFlightErrCode(err), f
-			}
-		case "lc":
-			g := NewLockedCalls()
-			s.invoke = func(c *verifFlightCall, fn func() (any, error)) (int, int, int) {
+		verifFlightRunSchedule(t, em, h, b.Mode, b.Ops)
+	}
+}
+
+// verifFlightRunSchedule replays one schedule.  Every object index named by a move ("ob") stands for
+// one freshly constructed SingleFlight / LockedCalls / ResourceManager; all objects of a schedule are
+// handed the SAME key strings.
+func verifFlightRunSchedule(t *testing.T, em *verifEmitter, h int, mode string, ops []verifFlightOp) {
+	s := &verifFlightSched{t: t, em: em, strict: true}
+	nobj := 1
+	for i := range ops {
+		if ops[i].Ob < 1 {
+			ops[i].Ob = 1
+		}
+		if ops[i].Ob > nobj {
+			nobj = ops[i].Ob
+		}
+	}
+	var rms []*ResourceManager
+	switch mode {
+	case "sf":
+		gs := make([]SingleFlight, nobj)
+		for i := range gs {
+			gs[i] = NewSingleFlight()
+		}
+		s.invoke = func(c *verifFlightCall, fn func() (any, error)) (int, int, int) {
+			g := gs[c.obj-1]
+			if (c.id+h)%3 == 0 {
 				v, err := g.Do(verifFlightKey(h, c.key), fn)
 				return verifFlightVal(v), verifFlightErrCode(err), 2
 			}
-		case "rm":
-			rm = NewResourceManager()
-			s.invoke = func(c *verifFlightCall, fn func() (any, error)) (int, int, int) {
-				r, err := rm.GetResource(verifFlightKey(h, c.key), func() (io.Closer, error) {
-					v, e := fn()
-					if e != nil {
-						return nil, e
-					}
-					return &verifFlightRes{id: v.(int)}, nil
-				})
-				return verifFlightVal(r), verifFlightErrCode(err), 2
+			v, fresh, err := g.DoEx(verifFlightKey(h, c.key), fn)
+			f := 0
+			if fresh {
+				f = 1
 			}
+			return verifFlightVal(v), verifFlightErrCode(err), f
 		}
-		if verifEnvInt("VERIF_FLIGHT_HOOKS", 0) == 1 {
-			verifhook.Set(s.hook)
+	case "lc":
+		gs := make([]LockedCalls, nobj)
+		for i := range gs {
+			gs[i] = NewLockedCalls()
 		}
-		em.Emit(verifEv{"e": "reset", "mode": mode})
-		inj := 0
-		for _, op := range ops {
-			switch op.Op {
-			case "call":
-				s.start(op.K)
-			case "rel":
-				s.release(op.K, op.O, op.S)
-			case "cont":
-				s.cont(op.K)
-			case "inject":
-				s.rest()
-				inj++
-				rm.Inject(verifFlightKey(h, op.K), &verifFlightRes{id: 1000 + inj})
-				em.Emit(verifEv{"e": "inject", "k": op.K, "v": 1000 + inj})
-			}
-			s.rest()
+		s.invoke = func(c *verifFlightCall, fn func() (any, error)) (int, int, int) {
+			v, err := gs[c.obj-1].Do(verifFlightKey(h, c.key), fn)
+			return verifFlightVal(v), verifFlightErrCode(err), 2
 		}
-		s.drain()
-		verifhook.Set(nil)
+	case "rm":
+		rms = make([]*ResourceManager, nobj)
+		for i := range rms {
+			rms[i] = NewResourceManager()
+		}
+		s.invoke = func(c *verifFlightCall, fn func() (any, error)) (int, int, int) {
+			r, err := rms[c.obj-1].GetResource(verifFlightKey(h, c.key), func() (io.Closer, error) {
+				v, e := fn()
+				if e != nil {
+					return nil, e
+				}
+				return &verifFlightRes{id: v.(int)}, nil
+			})
+			return verifFlightVal(r), verifFlightErrCode(err), 2
+		}
+	default:
+		t.Fatalf("verif flight: unknown mode %q", mode)
 	}
+	if verifEnvInt("VERIF_FLIGHT_HOOKS", 0) == 1 {
+		verifhook.Set(s.hook)
+	}
+	em.Emit(verifEv{"e": "reset", "mode": mode})
+	inj := 0
+	for _, op := range ops {
+		switch op.Op {
+		case "call":
+			s.startOn(op.Ob, op.K)
+		case "rel":
+			s.releaseOn(op.Ob, op.K, op.O, op.S)
+		case "cont":
+			s.contOn(op.Ob, op.K)
+		case "inject":
+			s.rest()
+			inj++
+			rms[op.Ob-1].Inject(verifFlightKey(h, op.K), &verifFlightRes{id: 1000 + inj})
+			em.Emit(verifEv{"e": "inject", "o": op.Ob, "k": op.K, "v": 1000 + inj})
+		}
+		s.rest()
+	}
+	s.drain()
+	verifhook.Set(nil)
 }
 
 func TestVerifFlightReplaySF(t *testing.T) { verifFlightReplay(t, "sf") }
 func TestVerifFlightReplayLC(t *testing.T) { verifFlightReplay(t, "lc") }
 func TestVerifFlightReplayRM(t *testing.T) { verifFlightReplay(t, "rm") }
+
+// schedules over several objects that share their key strings; every behaviour names its component
+func TestVerifFlightReplayObjs(t *testing.T) { verifFlightReplay(t, "") }
 
 // ---- stress: free-running goroutines, nothing steered ----------------------------------
 
@@ -98,6 +140,7 @@ func TestVerifFlightStress(t *testing.T) {
 	em := verifOpen(t)
 	defer em.Close()
 	rnd := verifRand(7)
+	ornd := verifRand(8) // how many objects a round uses (own stream: the other round parameters stay as they were)
 	rounds := verifEnvInt("VERIF_FLIGHT_ROUNDS", 60)
 	style := os.Getenv("VERIF_FLIGHT_STYLE")
 	defer runtime.GOMAXPROCS(runtime.GOMAXPROCS(0))
@@ -129,13 +172,19 @@ func TestVerifFlightStress(t *testing.T) {
 			keys, perG = 20, 20
 		}
 		panics := mode != "rm" && rnd.Intn(4) == 0
-		sf, lc, rm := NewSingleFlight(), NewLockedCalls(), NewResourceManager()
+		// the goroutines of a round spread their calls over nobj objects that are handed the same key strings
+		nobj := []int{1, 1, 2, 3}[ornd.Intn(4)]
+		sfs, lcs, rms := make([]SingleFlight, nobj), make([]LockedCalls, nobj), make([]*ResourceManager, nobj)
+		for i := 0; i < nobj; i++ {
+			sfs[i], lcs[i], rms[i] = NewSingleFlight(), NewLockedCalls(), NewResourceManager()
+		}
 		em.Emit(verifEv{"e": "reset", "mode": mode})
 		var ids atomic.Int64
 		startc := make(chan struct{})
 		workers := make([]*verifFlightWorker, goroutines)
 		for g := 0; g < goroutines; g++ {
 			gr := verifRand(int64(1000*r + g + 13))
+			gor := verifRand(int64(1000*r + g + 500013))
 			w := &verifFlightWorker{}
 			workers[g] = w
 			go func() {
@@ -154,6 +203,8 @@ func TestVerifFlightStress(t *testing.T) {
 						spin = gr.Intn(maxSpin + 1)
 					}
 					outcome := gr.Intn(10)
+					ob := 1 + gor.Intn(nobj)
+					sf, lc, rm := sfs[ob-1], lcs[ob-1], rms[ob-1]
 					fn := func() (any, error) {
 						em.Emit(verifEv{"e": "fnStart", "c": id})
 						for j := 0; j < spin; j++ {
@@ -178,7 +229,7 @@ func TestVerifFlightStress(t *testing.T) {
 							}
 						}()
 						key := "k" + strconv.Itoa(k)
-						em.Emit(verifEv{"e": "callStart", "c": id, "k": k})
+						em.Emit(verifEv{"e": "callStart", "c": id, "o": ob, "k": k})
 						switch mode {
 						case "sf":
 							if id%3 == 0 {
